@@ -11,7 +11,7 @@ def run(cx):
     cx.rule("C01.R3", "exactly one reply-producing call on every path of the library's own dispatchers and of every generated Interface::call")
     cx.rule("C01.R4", "handler error closes the connection: every path from handle()'s Err edge in the listen worker passes Stream::shutdown and leaves the loop")
     h, n = hc.check_tails(cx, "C01.R1", lambda after_dispatch: after_dispatch)
-    cx.floor("C01.R1", "Ok returns of handle()", len(h.ok_assigns), 4)
+    cx.floor("C01.R1", "Ok returns of handle()", len(h.ok_assigns), 2)
     from .C02 import r1_fresh
     r1_fresh(cx, h, rule="C01.R1")
     r2(cx, h)
